@@ -175,6 +175,11 @@ RetChecks(ln, res, tagRet) ==
   <<Chk(res.ret = ln.ret, tagRet, res.ret, ln.ret),
     Chk(res.ret # ln.ret \/ ln.ret >= 0 \/ res.err = ln.err, tagRet, res.err, ln.err)>>
 
+\* C06: a protocol error is a terminal condition like the others: the call that discovers it, and every call after it, fails with
+\* EPROTO - it is not reported as the peer's orderly close (0 / EPIPE) or as anything else
+ProtoChecks(ln, res) ==
+  <<Chk(~(res.ret = -1 /\ res.err = EPROTO) \/ (ln.ret = -1 /\ ln.err = EPROTO), "C06.proto_errno", EPROTO, <<ln.ret, ln.err>>)>>
+
 \* from_app is "don't care" when the send failed together with the connection
 CntChecks(ln, e, res, dcFromApp) ==
   LET c == ln.c[e]
@@ -248,7 +253,7 @@ StepSend(ln) ==
                ELSE IF res.ret = -1 /\ ConnErr(res.err) THEN "C06.errno"
                ELSE "MM"
     IN Apply(ln, e, res.ep, nf, nrcv, hcs,
-             RetChecks(ln, res, tag) \o <<Chk(res.used = cr.wu, UTag(e), res.used, cr.wu)>>
+             RetChecks(ln, res, tag) \o ProtoChecks(ln, res) \o <<Chk(res.used = cr.wu, UTag(e), res.used, cr.wu)>>
              \o CntChecks(ln, e, res, res.started /\ res.ret = -1))
   ELSE IF Stream(tp) THEN
     LET res == BtcpSend(eps[e], ln.len, cr.wc, cr.werr)
@@ -284,7 +289,7 @@ StepReceive(ln) ==
                ELSE IF ln.ret > 0 THEN "C06.partial_delivered"
                ELSE "MM"
     IN Apply(ln, e, res.ep, frames, nn, hcs,
-             RetChecks(ln, res, tag)
+             RetChecks(ln, res, tag) \o ProtoChecks(ln, res)
              \o <<Chk(res.wused = cr.wu, UTag(e), res.wused, cr.wu),
                   Chk(res.rused = cr.ru, "MM", res.rused, cr.ru),
                   \* C06: end-of-stream is reported only after every complete message that had arrived
@@ -331,7 +336,7 @@ StepFinish(ln) ==
                   THEN "C03.finish_early"
              ELSE "MM"
   IN Apply(ln, e, res.ep, frames, nrcv, hcs,
-           RetChecks(ln, res, tag) \o <<Chk(res.used = cr.wu, UTag(e), res.used, cr.wu)>>
+           RetChecks(ln, res, tag) \o ProtoChecks(ln, res) \o <<Chk(res.used = cr.wu, UTag(e), res.used, cr.wu)>>
            \o CntChecks(ln, e, res, FALSE))
 
 StepAwait(ln) ==
